@@ -61,6 +61,8 @@ func concurrent(args []string) error {
 		mu.Lock()
 		if len(res.Bad) < 50 {
 			res.Bad = append(res.Bad, bad{Sig: sig, What: what})
+			// at once: a processor that panics later takes the driver along, what was seen stands
+			w.Write(concResult{Case: res.Case + " (partial)", Bad: []bad{{Sig: sig, What: what}}})
 		}
 		mu.Unlock()
 	}
